@@ -56,7 +56,11 @@ mod absolute_to_relative_time {
         D: Deserializer<'de>,
     {
         let deadline = Duration::deserialize(deserializer)?;
-        Ok(Instant::now() + deadline)
+        let now = Instant::now();
+        // The duration is chosen by the peer: saturate rather than overflow.
+        Ok(now
+            .checked_add(deadline)
+            .unwrap_or_else(|| now + Duration::from_secs(60 * 60 * 24 * 365 * 100)))
     }
 
     #[cfg(test)]
